@@ -4,6 +4,7 @@ import (
 	"fmt"
 	"go/ast"
 	"go/types"
+	"sort"
 	"strings"
 )
 
@@ -255,7 +256,26 @@ func ruleBoundScoped(c *Ctx, only func(*Func) bool) {
 						desc = "recv " + strings.TrimPrefix(desc, "range ")
 					}
 				}
-				if reason, ok := reviewedBare[rootName(f)+"|"+desc]; ok {
+				key := rootName(f) + "|" + desc
+				if _, ok := reviewedBare[key]; !ok && !knownFuncs[rootName(f)] {
+					// a method of a type the reference tree does not have (shared code
+					// pulled out of sibling implementations): a reviewed entry for the
+					// same method name and the same operation on a known type covers it
+					if i := strings.LastIndex(rootName(f), "."); i >= 0 {
+						meth := rootName(f)[i:]
+						var cands []string
+						for k := range reviewedBare {
+							if j := strings.Index(k, "|"); j >= 0 && strings.HasSuffix(k[:j], meth) && k[j+1:] == desc {
+								cands = append(cands, k)
+							}
+						}
+						if len(cands) > 0 {
+							sort.Strings(cands)
+							key = cands[0]
+						}
+					}
+				}
+				if reason, ok := reviewedBare[key]; ok {
 					c.R.Except("R-BOUND/site", p.Pos(op.Ast), f.Name, op.Desc, reason)
 				} else {
 					c.R.Violate("R-BOUND/site", p.Pos(op.Ast), f.Name, op.Desc, "bare blocking operation (no default, timer or cancellation arm) that is not in the reviewed table: it can wait forever", nil)
